@@ -1,5 +1,5 @@
 (* C08 — A service handler runs exactly when the invocation is authorized. *)
-From Ucanto Require Import Base Pattern Time Validator ValidatorSpec Server.
+From Ucanto Require Import Base Pattern Time Validator ValidatorSpec Server EndToEnd.
 
 (* For every store, fuel, server (any context, any registered handlers) and invocation:
    the handler call log of Run is empty or one call of the handler registered for the
@@ -58,3 +58,30 @@ Theorem C08_batch_once : forall U fuel srv vis exec rep calls,
   (length calls <= length (dedupe [] exec))%nat.
 Proof. exact execute_calls_once. Qed.
 Print Assumptions C08_batch_once.
+
+(* Composition with C01 (server.Run + validator.Access): a handler is called only for an
+   invocation carrying a complete valid delegation chain (ValidatorSpec.P: every token on the
+   path inside its time window and signed / session-backed, citations aligned, capabilities
+   derived through the handler's own descriptor, rooted where can_issue holds, accepted by the
+   revocation checker) — and with that chain's capability. *)
+Theorem C08_call_has_valid_chain : forall U fuel srv,
+  (forall l p, resolve_proof (s_ctx srv) l = Some p -> d_link p = l) ->
+  forall inv rc calls, run U fuel srv inv = Some (rc, calls) -> calls <> [] ->
+  exists h a t c, calls = [(h_can h, node_cap a)] /\
+    tok U inv = Some t /\ t_caps t = [c] /\ find_handler (r_can c) (s_service srv) = Some h /\
+    fst (access U (s_ctx srv) fuel (h_desc h) inv) = AOk a /\
+    P U (s_ctx srv) fuel (h_desc h) [inv] a.
+Proof. exact handler_call_has_valid_chain. Qed.
+Print Assumptions C08_call_has_valid_chain.
+
+(* ... and for a whole request: EVERY entry of the handler call log belongs to an invocation of
+   the execute list whose block travelled, with a complete valid chain for the handler called *)
+Theorem C08_request_calls_have_valid_chains : forall U fuel srv,
+  (forall l p, resolve_proof (s_ctx srv) l = Some p -> d_link p = l) ->
+  forall vis exec rep calls, execute U fuel srv vis exec = ExecOk rep calls ->
+  forall k, In k calls ->
+  exists l h a t c, In l exec /\ In l vis /\ k = (h_can h, node_cap a) /\
+    tok U (mkDlg l vis) = Some t /\ t_caps t = [c] /\ find_handler (r_can c) (s_service srv) = Some h /\
+    P U (s_ctx srv) fuel (h_desc h) [mkDlg l vis] a.
+Proof. exact request_calls_have_valid_chains. Qed.
+Print Assumptions C08_request_calls_have_valid_chains.
